@@ -727,14 +727,19 @@ def run_seeds(prop: str, repo: str, base_keys: Optional[set] = None) -> dict:
     if base_keys is None:
         bctx, _ = core.run_property(prop, "quick", repo)
         base_keys = _finding_keys(bctx)
-    out, missed = {}, []
+    out, missed, refused = {}, [], []
     with ProcessPoolExecutor(max_workers=min(WORKERS, max(1, len(ids)))) as ex:
         for sid, rules_, err in ex.map(_run_seed, [(prop, repo, s, sorted(base_keys)) for s in ids]):
             if rules_ is None:
                 out[sid] = "not applicable: " + str(err)
             elif rules_:
                 out[sid] = "reported by " + ", ".join(rules_)
+            elif err:
+                # the changed code has a shape the rules do not recognise: the run ends with exit 2 (cannot analyse), which is
+                # a refusal to pass, not a located violation
+                out[sid] = "refused with exit 2 (shape not recognised): " + str(err)[:160]
+                refused.append(sid)
             else:
-                out[sid] = "MISSED" + (f" ({err})" if err else "")
+                out[sid] = "MISSED"
                 missed.append(sid)
-    return {"seeded_changes": out, "seeded_missed": missed}
+    return {"seeded_changes": out, "seeded_missed": missed, "seeded_refused": refused}
